@@ -10,19 +10,47 @@ def repo_commits(prefix):
 
 # id -> (built, technique, level text, level note, design ref)
 P = {
- "C01": (False, "", "", "", "5/C01"),
- "C02": (False, "", "", "", "5/C02"),
- "C03": (False, "", "", "", "5/C03"),
- "C04": (False, "", "", "", "5/C04"),
- "C05": (False, "", "", "", "5/C05"),
- "C06": (False, "", "", "", "5/C06"),
+ "C01": (True,
+         'runtime monitor: framing assertions (version, type code, header length = bytes = reported size) on the real encoders over generated controller messages',
+         "Tens of thousands (quick) to millions (thorough) of controller-originated messages of every kind, command variant and nesting are built through the public API and encoded by the real code; a monitor asserts version 4, the kind's type code, header length == bytes produced == Len() before and after encoding, also for the message embedded in a bundle-add. Reach comes from shape diversity (delete commands that still carry instructions/buckets, payload absent/empty/raw/typed, near-65535 sizes).",
+         'Holds for the generated shapes only. Trusts the type-code table (OF1.3.5 7.1) and the reference size used to discard recipes over 65535 bytes.',
+         "5/C01"),
+ "C02": (True,
+         'runtime monitor: every encoding is walked by an independent strict TLV walker; derived length fields are checked after every builder call',
+         "The real encoders' output for generated messages, standalone elements and builder histories is walked by a strict length-driven walker written from the specifications: every declared length, multiple-of-8 rule, zero padding and type/subtype/class/field code is checked and the walk must end exactly at the end of the message.",
+         'Trusts the walker (harness/spec/ofdec.go, validated self-inverse against the reference encoder). Builder histories are bottom-up.',
+         "5/C02"),
+ "C03": (True,
+         'runtime monitor: differential check of the real encoders against an independent reference encoder and decoder',
+         "Each generated recipe is built through the API and its encoding is compared byte for byte with the reference encoder; on a difference the independent decoder names every differing field (so one known difference cannot hide another). Boundary-biased values in every field make a value written into a neighbour's slot visible.",
+         'Trusts the reference model (SPEC_NOTES.md). Two known findings (OF1.0-shaped port/queue stats request bodies) are listed in KNOWN_FINDINGS.txt and re-executed on every run.',
+         "5/C03"),
+ "C04": (True,
+         'runtime monitor: wire-first differential check - reference encoder writes conformant switch messages, the real parser reads them, extracted fields are compared with the recipe',
+         "Conformant switch-originated frames of every kind are produced by the independent encoder and given to the library's parser entry point; exported fields (and unexported ones by reflection) are extracted and compared field by field with the recipe, every differing field being reported separately.",
+         'Trusts the reference encoder as the description of a conforming switch. Known findings (OF1.0-shaped table/port/queue stats replies, dropped echo bodies, data-less packet-in, priority-tagged frames) are listed with witnesses.',
+         "5/C04"),
+ "C05": (True,
+         "runtime monitor: metamorphic round trip on the library alone (decode(encode(v)) == v, re-encoding byte-equal, decoded extent == bytes) through the library's own dispatchers, alone and with trailing elements, under the totality guard",
+         "Values of every two-way kind are built through the API, encoded, decoded by the dispatcher the library itself uses (parser entry point, DecodeAction, DecodeInstr, match/match-field decoders, multipart body decoders), and the decoded value's fields, re-encoding and reported extent are compared with the original.",
+         'Two-way kinds only (the library has a decoder case). Representation-only differences are normalised. Decoders run under CPU/allocation budgets.',
+         "5/C05"),
+ "C06": (True,
+         'runtime monitor: size = bytes and child-embedding assertions on values of all 123 encodable types found by scanning the source',
+         "Every encodable type in the four packages (the list is recomputed from /repo with go/parser on every run and uncovered types are reported) is reached by generated values; for each value and recursively each child the monitor asserts len(encoding) == Len() and that the parent's bytes are header + the children's own standalone encodings in order + zero padding.",
+         "Only parents' fixed header sizes come from the reference model. Well-formed values only.",
+         "5/C06"),
  "C07": (False, "", "", "", "5/C07"),
  "C08": (False, "", "", "", "5/C08"),
  "C09": (False, "", "", "", "5/C09"),
  "C10": (False, "", "", "", "5/C10"),
  "C11": (False, "", "", "", "5/C11"),
  "C12": (False, "", "", "", "5/C12"),
- "C13": (False, "", "", "", "5/C13"),
+ "C13": (True,
+         'runtime monitor: all histories over {size query, encode} up to length 4 plus longer PRNG histories on fresh builds; outputs compared across histories; children re-encoded after their containers',
+         "For each recipe fresh values go through all 30 short histories and PRNG histories of size queries and encodings; every size answer and every encoding must agree across all histories, and children's standalone encodings must be unchanged after their containers were sized/encoded twice.",
+         'Compares outputs only (never internal state); values complete before the first query.',
+         "5/C13"),
  "C14": (False, "", "", "", "5/C14"),
  "C15": (True,
          'runtime monitors: differential lookup-vs-reference-table check, header-word bijection sweep (all 2^32 words in the thorough tier), concurrent lookup/overwrite workload under the Go race detector',
@@ -76,7 +104,7 @@ m = {
  "hooks": {
    "guard": "verif (Go build tag)",
    "enable": "go build -tags verif (the harness module replaces github.com/contiv/libOpenflow with /repo, so the working tree is compiled on every run)",
-   "baseline_off_cmd": "cd /repo && GOFLAGS=-mod=mod GOPROXY=off GOSUMDB=off go test -vet=off -count=1 -timeout 25m ./openflow13/... ./protocol/... ./common/... ./util/... ./ofbase/...",
+   "baseline_off_cmd": "cd /repo && GOFLAGS=-mod=mod GOPROXY=off GOSUMDB=off go test -json -vet=off -count=1 -timeout 25m ./...",
    "source_commits": repo_commits("verif hooks"),
    "add_only": True,
  },
